@@ -183,6 +183,102 @@ def gen_route(rng):
     return sc
 
 
+def rand_sched(rng, pre):
+    m = rng.randint(1, 3)
+    nums = [rng.choice([0, 1, 1, 2, 2, 3]) for _ in range(m)]
+    if not any(nums):
+        nums[rng.randrange(m)] = 1
+    ends, t = [], 0
+    for _ in range(m):
+        t += rng.randint(1, 5)
+        ends.append(t)
+    return {"nums": nums, "ends": ends, "pre": pre, "off": rng.choice([0, 0, 1, 2])}
+
+
+def gen_sched(rng, pre_choices=(0,)):
+    """server schedules; non-pre-emptive by default.  Downstream nodes are uncapacitated
+    (a finishing overtime customer that gets blocked is finding F7; a pre-emptive shift end
+    meeting a blocked customer is finding F4)"""
+    N = rng.choice([1, 1, 2])
+    K = rng.choice([1, 1, 2])
+    sc = gen_tandem(rng, N=N, K=K)
+    sc["prio"] = [0] * K if rng.random() < 0.5 else list(range(K))
+    sc["syscap"] = INF
+    for n, nd in enumerate(sc["nodes"]):
+        nd["qcap"] = INF
+        if nd["c"] >= INF or nd["c"] == 0:
+            nd["c"] = 1
+        if n == 0 or rng.random() < 0.4:
+            nd["kind"] = "sched"
+            nd["sched"] = rand_sched(rng, rng.choice(pre_choices))
+            nd["c"] = 0
+    for n in range(N):
+        for k in range(K):
+            sc["svcS"][n][k] = samples(rng, 1, 5, 2)
+            if sc["arrS"][n][k]:
+                sc["arrS"][n][k] = samples(rng, 1, 3, 2)
+    sc["T"] = rng.randint(12, 40)
+    return sc
+
+
+def gen_slot(rng):
+    N = rng.choice([1, 1, 2])
+    K = rng.choice([1, 1, 2])
+    sc = gen_tandem(rng, N=N, K=K)
+    sc["prio"] = [0] * K if rng.random() < 0.5 else list(range(K))
+    sc["syscap"] = INF
+    for n, nd in enumerate(sc["nodes"]):
+        nd["qcap"] = INF
+        if nd["c"] >= INF or nd["c"] == 0:
+            nd["c"] = 1
+        if n == 0 or rng.random() < 0.4:
+            m = rng.randint(1, 3)
+            slots, t = [], 0
+            for _ in range(m):
+                t += rng.randint(1, 4)
+                slots.append(t)
+            cap = rng.random() < 0.5
+            nd["kind"] = "slot"
+            nd["c"] = 0
+            nd["slot"] = {"slots": slots, "sizes": [rng.choice([0, 1, 2, 3]) for _ in range(m)], "cap": cap,
+                          "pre": (rng.choice([0, 1, 2, 3]) if cap else 0), "off": rng.choice([0, 0, 1])}
+    for n in range(N):
+        for k in range(K):
+            sc["svcS"][n][k] = samples(rng, 1, 6, 2)
+            if sc["arrS"][n][k]:
+                sc["arrS"][n][k] = samples(rng, 1, 3, 2)   # no arrival at date 0 (finding F14)
+    sc["T"] = rng.randint(12, 40)
+    return sc
+
+
+def gen_ccw(rng, N=1):
+    """class change while waiting (class_change_time_distributions)"""
+    K = rng.choice([2, 2, 3])
+    sc = gen_tandem(rng, N=N, K=K)
+    sc["prio"] = rng.choice([[0] * K, list(range(K)), [0] + [1] * (K - 1)])
+    sc["syscap"] = INF
+    for nd in sc["nodes"]:
+        nd["qcap"] = INF
+        if nd["c"] >= INF or nd["c"] == 0:
+            nd["c"] = rng.choice([1, 2])
+        if len(set(sc["prio"])) > 1 and rng.random() < 0.5:
+            nd["pp"] = rng.choice([1, 2, 3])
+    cct = [[[] for _ in range(K)] for _ in range(K)]
+    for a in range(K):
+        for b in range(K):
+            if a != b and rng.random() < 0.6:
+                cct[a][b] = samples(rng, 1, 5, 2)
+    if not any(cct[a][b] for a in range(K) for b in range(K)):
+        cct[0][1] = [1, 2]
+    sc["cct"] = cct
+    for n in range(N):
+        for k in range(K):
+            sc["svcS"][n][k] = samples(rng, 1, 5, 2)
+            if n == 0:
+                sc["arrS"][n][k] = samples(rng, 1, 3, 2)
+    return sc
+
+
 def gen_stopcount(rng):
     base = rng.choice([gen_core1, gen_tandem, gen_prio, gen_renege, gen_cls])
     sc = base(rng)
@@ -216,6 +312,11 @@ def gen_stopcount(rng):
 
 FAMILIES = {
     "stopcount": gen_stopcount,
+    "sched": gen_sched,
+    "schedpre": lambda rng: gen_sched(rng, pre_choices=(1, 2, 3)),
+    "slot": gen_slot,
+    "ccw": gen_ccw,
+    "ccw2": lambda rng: gen_ccw(rng, N=2),
     "core1": gen_core1,
     "tandem": gen_tandem,
     "prio": gen_prio,
@@ -304,6 +405,36 @@ def mc_instances(name, tier):
                     "arrS": [[[1, 2]], [[]], [[]]], "svcS": [[[1]], [[1, 2]], [[1]]],
                     "route": [{"kind": "fpb", "routes": [[[2, 3]], [[3], [1, 2]]], "rule": "all", "choice": "jsq"}],
                     "T": 6 if not big else 8})
+        return [(fam, 4 if not big else 5)]
+    if name == "sched":
+        fam = []
+        for nums, ends, off in ([[1, 0], [2, 4], 0], [[2, 1], [3, 5], 1], [[0, 2, 1], [1, 3, 4], 0]):
+            fam.append({"N": 1, "K": 1, "nodes": [{"kind": "sched", "c": 0, "sched": {"nums": nums, "ends": ends, "pre": 0, "off": off}}],
+                        "arrS": [[[1, 2]]], "svcS": [[[1, 3]]], "route": [tm([[0]])], "T": 9 if not big else 12})
+        return [(fam, 4 if not big else 5)]
+    if name == "schedpre":
+        fam = []
+        for pre in [1, 2, 3]:
+            for nums, ends in ([[1, 0], [2, 4]], [[2, 1], [3, 5]]):
+                fam.append({"N": 1, "K": 2, "prio": [0, 1],
+                            "nodes": [{"kind": "sched", "c": 0, "sched": {"nums": nums, "ends": ends, "pre": pre, "off": 0}}],
+                            "arrS": [[[1, 2], [2]]], "svcS": [[[2, 3], [3]]], "route": [tm([[0]]), tm([[0]])],
+                            "T": 8 if not big else 11})
+        return [(fam, 4 if not big else 5)]
+    if name == "slot":
+        fam = []
+        for cap, pre in [(False, 0), (True, 0), (True, 1), (True, 3)]:
+            fam.append({"N": 1, "K": 1, "nodes": [{"kind": "slot", "c": 0,
+                        "slot": {"slots": [2, 3], "sizes": [2, 1], "cap": cap, "pre": pre, "off": 0}}],
+                        "arrS": [[[1, 2]]], "batchS": [[[1, 2]]], "svcS": [[[1, 4]]], "route": [tm([[0]])],
+                        "T": 9 if not big else 12})
+        return [(fam, 5 if not big else 6)]
+    if name == "ccw":
+        fam = []
+        for prio, pp in [([0, 0], 0), ([1, 0], 0), ([1, 0], 1), ([1, 0], 3)]:
+            fam.append({"N": 1, "K": 2, "prio": prio, "nodes": [{"c": 1, "pp": pp}],
+                        "arrS": [[[1, 2], [2]]], "svcS": [[[2, 3], [1]]], "cct": [[[], [1, 2]], [[], []]],
+                        "route": [tm([[0]]), tm([[0]])], "T": 7 if not big else 9})
         return [(fam, 4 if not big else 5)]
     if name == "stopcount":
         fam = []
